@@ -440,7 +440,7 @@ def run_parse(ctx, pid, run, idx, replay, BUILD, ROOT):
         "rule": run.get("rule", ""), "samples": st["samples"][:6],
         "input_distribution": {k: st[k] for k in ("accepted", "rejected", "accepted_with_expression", "error_kinds",
                                                   "segment_kinds", "length_histogram", "multi_line", "non_ascii",
-                                                  "corpus_cases", "shift_checks", "unknown_error_wordings")},
+                                                  "corpus_cases", "shift_checks", "unknown_error_wordings", "plain_queries_run_through_prepare")},
         "exhaustive": False,
     }
     return res
@@ -672,7 +672,8 @@ PROPS = {
     "C09": {"runs": [cache_run_spec(proj_cache_events, ["C09"]), tx_run_spec(["C09", "C12"], compare=False, nq=200)]},
     "C10": {"runs": [cache_run_spec(proj_cache_full, ["C10"])]},
     "C11": {"runs": [cache_run_spec(proj_cache_full, ["C11"])]},
-    "C20": {"runs": [cache_run_spec(proj_cache_events, ["C20"]), tx_run_spec(["C20"], compare=True, nq=200)]},
+    "C20": {"runs": [cache_run_spec(proj_cache_events, ["C20"]), tx_run_spec(["C20"], compare=True, nq=200),
+                     iter_run_spec(proj_iter_full, ["C20"], nq=2000)]},
     "C13": {"runs": [iter_run_spec(proj_iter_account, ["C13"])]},
     "C14": {"runs": [iter_run_spec(proj_iter_full, ["C14"])]},
     "C15": {"runs": [iter_run_spec(proj_iter_c15, ["C15"])]},
